@@ -9,8 +9,9 @@
                       (a replaced surface stays in the table mapped to an alias of true/false);
     [Ok _]            no assertion site reached, no exception, fuel sufficient. *)
 From Coq Require Import List Arith Bool NArith ZArith.
-From Celer Require Import C10.Csg C10.Logic C10.DeMorgan C10.Run
-  C10.CsgProofs C10.LogicProofs C10.ReplaceProofs C10.FlagProofs C10.DeMorganProofs C10.Witness.
+From Celer Require Import C10.Csg C10.Logic C10.DeMorgan C10.Sense C10.Run
+  C10.CsgProofs C10.LogicProofs C10.ReplaceProofs C10.FlagProofs C10.DeMorganProofs C10.Witness
+  C10.InfixProofs C10.DeMorganNJ C10.SenseProofs C10.InfixStringProofs C10.Witness2 C10.Witness3.
 Import ListNotations.
 
 (** NodeSimplifier: the replacement evaluates like the given node, for every
@@ -152,12 +153,92 @@ Print Assumptions C10_flag_simple_alias_refuted.
 
 (** transform_negated_joins (DeMorganSimplifier): every volume of the output
     tree has the boolean function of the corresponding input volume for EVERY
-    assignment, independently of what should_insert_join decides, and the
-    output satisfies the tree invariants. Partial: "no negated join remains"
-    is not proved (checked by the oracle on every run). *)
-Theorem C10_demorgan_sound_partial : forall t t' tr,
+    assignment, independently of what should_insert_join decides; the output
+    satisfies the tree invariants; and the output contains no alias and no
+    negation whose operand is a join ([no_negated_join], C10/DeMorganNJ.v:
+    for every node [Negated c] of the output, node [c] is not [Joined]). *)
+Theorem C10_demorgan_sound : forall t t' tr,
   wf t -> demorgan_full t = Ok (t', tr) ->
   inv t' /\
-  forall s, Forall2 (fun v' v => eval t' s v' = eval t s v) (volumes t') (volumes t).
-Proof. exact demorgan_sound_equiv. Qed.
-Print Assumptions C10_demorgan_sound_partial.
+  (forall s, Forall2 (fun v' v => eval t' s v' = eval t s v) (volumes t') (volumes t)) /\
+  no_negated_join t'.
+Proof. exact demorgan_sound. Qed.
+Print Assumptions C10_demorgan_sound.
+
+(** the structural half needs no hypothesis on the input tree at all *)
+Theorem C10_demorgan_no_negated_join : forall t t' tr,
+  demorgan_full t = Ok (t', tr) -> no_negated_join t'.
+Proof. exact demorgan_no_negated_join. Qed.
+Print Assumptions C10_demorgan_no_negated_join.
+
+(** InfixEvaluator (short-circuit evaluation with [short_circuit] skipping to
+    the matching parenthesis). [iparse s l v] (C10/InfixProofs.v) is the grammar
+    of the explicit infix form: face | ~face | true | ( e op e op ... e ) with one
+    operator per group; [v] is the expression's value under [s].
+    The evaluator returns that value for EVERY expression of the grammar (no
+    assertion site is reached, the model's fuel suffices), also for a top-level
+    operator sequence without the outer parentheses ([break] at depth 0);
+    the model-side builder only produces expressions of the grammar, with the
+    node's value; hence evaluator(builder(node)) = eval node, for all trees,
+    nodes and sense assignments. *)
+Theorem C10_infix_eval_grammar : forall s l v,
+  iparse s l v -> infix_evaluate l s = Ok v.
+Proof. exact infix_eval_grammar. Qed.
+Print Assumptions C10_infix_eval_grammar.
+
+Theorem C10_infix_eval_toplevel : forall s o l v,
+  iseq s o l v -> infix_evaluate l s = Ok v.
+Proof. exact infix_eval_toplevel. Qed.
+Print Assumptions C10_infix_eval_toplevel.
+
+Theorem C10_build_infix_grammar : forall t s fuel n l,
+  wf t -> build_infix fuel t n = Ok l -> iparse s l (eval t s n).
+Proof. intros t s fuel n l Hw. exact (build_infix_parse t s Hw fuel n l). Qed.
+Print Assumptions C10_build_infix_grammar.
+
+Theorem C10_infix_eval_correct : forall t s fuel n l,
+  wf t -> build_infix fuel t n = Ok l -> infix_evaluate l s = Ok (eval t s n).
+Proof. intros t s fuel n l Hw. exact (infix_eval_correct t s Hw fuel n l). Qed.
+Print Assumptions C10_infix_eval_correct.
+
+(** The faithful (unchecked) replace_and_simplify can lose the topological
+    order WITHOUT any user-level exchange: on a tree reached by insert /
+    insert_volume / replace_and_simplify only ([r3_ops], C10/Witness3.v), with
+    a consistent assignment, it returns a tree in which node 9 is an alias of
+    the higher node 10; the checked variant stops at the swap. This is why
+    [C10_replace_and_simplify_sound] / [C10_simplify_sound] are stated through
+    the checked variant: the hypothesis "the check passes" cannot be dropped.
+    Witness replayed on the real code on every run (corpus "@R3"). *)
+Theorem C10_replace_and_simplify_topo_refuted :
+  exists t t' unk,
+    forallb production_op r3_ops = true /\
+    tree_after empty_tree r3_ops = Ok t /\
+    inv t /\
+    (exists s, ids_sound t s /\ eval t s 7 = false) /\
+    replace_and_simplify false (rs_fuel t) t 7 false = Ok (t', unk) /\
+    nth_error (nodes t') 9 = Some (NAliased 10) /\
+    ~ wf t' /\
+    replace_and_simplify true (rs_fuel t) t 7 false = Assert.
+Proof. exact replace_topo_refuted_w. Qed.
+Print Assumptions C10_replace_and_simplify_topo_refuted.
+
+(** SenseEvaluator (recursive evaluation with short circuit, three-valued
+    SignedSense): at a point off every surface it returns "inside" exactly when
+    the node is true under the assignment of the surfaces' senses, on every
+    topologically sorted tree without operand-less joins (an invariant of
+    insert: [insert_joins_nonempty]; the C++ loop would return the
+    value-initialised sense "on" for such a join). *)
+Theorem C10_sense_evaluator_sound : forall t s n b,
+  wf t -> joins_nonempty t -> sense_eval_bool t s n = Ok b -> b = eval t s n.
+Proof. intros t s n b Hw Hn. exact (sense_eval_bool_sound t s Hw Hn n b). Qed.
+Print Assumptions C10_sense_evaluator_sound.
+
+(** InfixStringBuilder: the string built for a node (tokens "all(" "any(" ", "
+    ")" "!" "T" "F" "+n" "-n") is a complete expression of the grammar
+    expr ::= T | F | +n | -n | !expr | all(expr{, expr}) | any(expr{, expr})
+    whose value ([infix_string_value], reference recursive-descent evaluator in
+    C10/Sense.v) is the node's value, for every wf tree, node and assignment. *)
+Theorem C10_infix_string_sound : forall t s fuel n l,
+  wf t -> build_infix_string fuel t n = Ok l -> infix_string_value s l = Some (eval t s n).
+Proof. intros t s fuel n l Hw. exact (build_infix_string_sound t s Hw fuel n l). Qed.
+Print Assumptions C10_infix_string_sound.
